@@ -251,10 +251,53 @@ class MembraneTx:
         self.methods = {n.name: n for n in self.cls.body if isinstance(n, ast.FunctionDef)}
         self.levels = enum_values(tree, "ThreatLevel")
         self.n = 0
+        # class-level constants (`NAME = <natural>` in the class body, never assigned through `self.` / the class
+        # anywhere in the class): `self.NAME`, `Membrane.NAME`, `type(self).NAME` resolve to the VALUE
+        cands = {}
+        for n in self.cls.body:
+            tg = n.targets[0] if isinstance(n, ast.Assign) and len(n.targets) == 1 else \
+                n.target if isinstance(n, ast.AnnAssign) and n.value is not None else None
+            if isinstance(tg, ast.Name) and isinstance(n.value, ast.Constant) and isinstance(n.value.value, int) \
+                    and not isinstance(n.value.value, bool) and n.value.value >= 0:
+                cands[tg.id] = n.value.value
+        for n in ast.walk(self.cls):
+            tgs = n.targets if isinstance(n, ast.Assign) else [n.target] if isinstance(n, (ast.AugAssign, ast.AnnAssign)) else []
+            for tg in tgs:
+                if isinstance(tg, ast.Attribute) and tg.attr in cands:
+                    cands.pop(tg.attr)
+        self.class_consts = cands
 
     def fresh(self, p):
         self.n += 1
         return f"{p}{self.n}"
+
+    def window_container(self):
+        """what `__init__` binds `_request_times` to: "list" (`[]`, `list()`) or "deque" (`deque()` without arguments:
+        unbounded).  Anything else - a deque with `maxlen` (appending then EVICTS), a pre-filled container, another
+        type - is not the modelled window: the pieces that touch it leave the subset."""
+        init = self.methods.get("__init__")
+        if init is None:
+            bad(self.cls, "Membrane has no __init__")
+        found = None
+        for n in ast.walk(init):
+            tg = n.targets[0] if isinstance(n, ast.Assign) and len(n.targets) == 1 else \
+                n.target if isinstance(n, ast.AnnAssign) and n.value is not None else None
+            if tg is not None and is_self(tg, "_request_times"):
+                if found is not None:
+                    bad(n, "_request_times bound twice in __init__")
+                v = n.value
+                if isinstance(v, ast.List) and not v.elts:
+                    found = "list"
+                elif isinstance(v, ast.Call) and not v.args and not v.keywords and ast.unparse(v.func) == "list":
+                    found = "list"
+                elif isinstance(v, ast.Call) and not v.args and not v.keywords \
+                        and ast.unparse(v.func) in ("deque", "collections.deque"):
+                    found = "deque"
+                else:
+                    bad(n, f"_request_times starts as {ast.unparse(v)[:40]}")
+        if found is None:
+            bad(init, "__init__ does not bind _request_times")
+        return found
 
     # -- expressions (pure) -----------------------------------------------------------------------------------
     def ev(self, node, env, cur):
@@ -282,6 +325,10 @@ class MembraneTx:
         if isinstance(node, ast.Attribute):
             if isinstance(node.value, ast.Name) and node.value.id == "ThreatLevel" and node.attr in self.levels:
                 return V("nat", str(self.levels[node.attr]))
+            if node.attr in self.class_consts and (
+                    is_self(node) or ast.unparse(node.value) in (self.cls.name, "type(self)", "self.__class__")) \
+                    and "self." + node.attr not in env:
+                return V("nat", str(self.class_consts[node.attr]))
             if is_self(node):
                 a = node.attr
                 if "self." + a in env:
@@ -474,6 +521,14 @@ class MembraneTx:
             tg = st.targets[0]
             if is_self(tg, "_request_times"):
                 v = st.value
+                # the rebuilt window may be a list or an unbounded deque: `[...]`, `list(<gen>)`, `deque(<gen>)` hold the
+                # same elements in the same order (iteration, len() and append are all the code uses - see
+                # window_container()); a deque with `maxlen` is NOT the same container and is refused there and here
+                if isinstance(v, ast.Call) and ast.unparse(v.func) in ("deque", "collections.deque", "list") \
+                        and len(v.args) == 1 and not v.keywords and isinstance(v.args[0], (ast.GeneratorExp, ast.ListComp)):
+                    if ast.unparse(v.func) != "list" and self.window_container() != "deque":
+                        bad(st, "deque assigned to a window that starts as a list")
+                    v = ast.copy_location(ast.ListComp(elt=v.args[0].elt, generators=v.args[0].generators), v)
                 if isinstance(v, ast.ListComp) and len(v.generators) == 1 and isinstance(v.elt, ast.Name) \
                         and isinstance(v.generators[0].target, ast.Name) and v.elt.id == v.generators[0].target.id \
                         and self.ev(v.generators[0].iter, env, cur).kind == "times" and len(v.generators[0].ifs) == 1:
@@ -638,6 +693,7 @@ def tr_membrane_piece(tree, key):
 def tr_membrane(tree, only=None):
     out = {}
     tx = MembraneTx(tree)
+    tx.window_container()               # the rate window starts as an empty list / unbounded deque, else fail closed
     if only == "filter":
         return {"filter": _tr_filter(tree)}
 
@@ -1265,6 +1321,7 @@ def rate_program(tree):
     statements after the `with` block, explicit acquire()/release()) is outside the subset -> Unsupported."""
     cls = find_class(tree, "Membrane")
     methods = {n.name: n for n in cls.body if isinstance(n, ast.FunctionDef)}
+    MembraneTx(tree).window_container()     # an empty list / unbounded deque (appending never evicts), else fail closed
 
     def touches(fn, seen=()):
         if fn.name in seen:
